@@ -5,15 +5,15 @@ import (
 	"github.com/tonistiigi/fsutil/zz_verif/v"
 )
 
-var mtimeChoices = []int64{1500000000123, 77000000001}
+var vh_mtimeChoices = []int64{1500000000123, 77000000001}
 
-func chooseMtime(name string) int64 { return mtimeChoices[v.Choose(name, len(mtimeChoices))] }
+func vh_chooseMtime(name string) int64 { return vh_mtimeChoices[v.Choose(name, len(vh_mtimeChoices))] }
 
-func isUnder(p, dir string) bool {
+func vh_isUnder(p, dir string) bool {
 	return len(p) > len(dir)+1 && p[:len(dir)] == dir && p[len(dir)] == '/'
 }
 
-func findEntry(snap []m.Entry, p string) *m.Entry {
+func vh_findEntry(snap []m.Entry, p string) *m.Entry {
 	for i := range snap {
 		if snap[i].Path == p {
 			return &snap[i]
@@ -22,8 +22,8 @@ func findEntry(snap []m.Entry, p string) *m.Entry {
 	return nil
 }
 
-func sameGroup(snap []m.Entry, a, b string) bool {
-	ea, eb := findEntry(snap, a), findEntry(snap, b)
+func vh_sameGroup(snap []m.Entry, a, b string) bool {
+	ea, eb := vh_findEntry(snap, a), vh_findEntry(snap, b)
 	return ea != nil && eb != nil && ea.Ino == eb.Ino
 }
 
@@ -31,11 +31,11 @@ func sameGroup(snap []m.Entry, a, b string) bool {
 // f and d/g regular files, h a hard link to f, l a symlink, p a fifo or char device (parts selected by
 // the bit mask S: 1 = d and d/g, 2 = h, 4 = l, 8 = p). Permission and special bits, uid, gid symbolic
 // (non-zero ids when nz), file bytes symbolic, mtimes from a small set.
-func symCopyTree(root string, maxb int, sel int) {
+func vh_symCopyTree(root string, maxb int, sel int) {
 	perm := func() uint32 { return v.U32("perm") & 07777 }
 	id := func(name string) uint32 { return v.U32(name) }
 	m.MkDir(root+"/t", perm(), id("uid"), id("gid"), 5)
-	m.MkFile(root+"/t/f", v.Bytes("data", v.Choose("size", maxb+1)), perm(), id("uid"), id("gid"), chooseMtime("mtime"))
+	m.MkFile(root+"/t/f", v.Bytes("data", v.Choose("size", maxb+1)), perm(), id("uid"), id("gid"), vh_chooseMtime("mtime"))
 	if v.Param("X", 0) != 0 {
 		if v.Bool("xattr-f") {
 			m.SetXattr(root+"/t/f", "user.f", v.Bytes("xf", 1))
@@ -51,28 +51,28 @@ func symCopyTree(root string, maxb int, sel int) {
 	if sel&1 != 0 {
 		m.MkDir(root+"/t/d", perm(), id("uid"), id("gid"), 5)
 		if v.Bool("has-d/g") {
-			m.MkFile(root+"/t/d/g", v.Bytes("data", v.Choose("size", maxb+1)), perm(), id("uid"), id("gid"), chooseMtime("mtime"))
+			m.MkFile(root+"/t/d/g", v.Bytes("data", v.Choose("size", maxb+1)), perm(), id("uid"), id("gid"), vh_chooseMtime("mtime"))
 		}
-		m.SetMtime(root+"/t/d", chooseMtime("mtime-d"))
+		m.SetMtime(root+"/t/d", vh_chooseMtime("mtime-d"))
 	}
 	if sel&2 != 0 && v.Bool("has-h") {
 		m.MkLink(root+"/t/f", root+"/t/h")
 	}
 	if sel&4 != 0 && v.Bool("has-l") {
-		m.MkSymlink(root+"/t/l", "f", id("uid"), id("gid"), chooseMtime("mtime"))
+		m.MkSymlink(root+"/t/l", "f", id("uid"), id("gid"), vh_chooseMtime("mtime"))
 	}
 	if sel&8 != 0 {
 		switch v.Choose("class-p", 3) {
 		case 1:
-			m.MkNode(root+"/t/p", m.KFifo, perm(), 0, id("uid"), id("gid"), chooseMtime("mtime"))
+			m.MkNode(root+"/t/p", m.KFifo, perm(), 0, id("uid"), id("gid"), vh_chooseMtime("mtime"))
 		case 2:
-			m.MkNode(root+"/t/p", m.KChar, perm(), 0x0103, id("uid"), id("gid"), chooseMtime("mtime"))
+			m.MkNode(root+"/t/p", m.KChar, perm(), 0x0103, id("uid"), id("gid"), vh_chooseMtime("mtime"))
 		}
 	}
-	m.SetMtime(root+"/t", chooseMtime("mtime-t"))
+	m.SetMtime(root+"/t", vh_chooseMtime("mtime-t"))
 }
 
-func xattrsEqual(a, b *m.Entry) bool {
+func vh_xattrsEqual(a, b *m.Entry) bool {
 	if len(a.XKeys) != len(b.XKeys) {
 		return false
 	}
